@@ -8,15 +8,25 @@
     * `pad_integral` with the options bnum uses for a single digit (`{:x}`, `{:01$x}`);
     * the `fmt_method!` loop produces the numeral of the whole value (`fmtMethod_eq`);
     * `exp_fmt!`: `expBuf_eq` (trailing zeros / exponent / mantissa against core's `exp_u*`);
-    * per-trait theorems: what each bnum implementation hands to `pad_integral`.
+    * per-trait theorems: what each bnum implementation hands to `pad_integral`
+      (`binary_eq`, `lowerHex_eq`, `upperHex_eq`, `octal_eq`, `display_eq`, `exp_eq`,
+      `display_eq_signed`, `exp_eq_signed`);
+    * the combined statements `runModel_unsigned` / `runModel_signed` about the Drive dispatchers
+      (`Drive.C12.runModel` = bnum's impl of a trait, `Drive.C12.runSpec` = `padIntegral` of core's
+      triple `Spec.Fmt.primTriple`): the driver's model answer IS its spec answer;
+    * the meaning of the Spec (`numeral_concat`, `ilog10_spec`, `strip_value`, `strip_range`,
+      `strip_no_trailing_zero`, `expText_eq`) and sanity of the `pad_integral` model
+      (`padIntegral_eq`, `padIntegral_of_le`, `padIntegral_length`).
 
   `Fmt.padIntegral` is a MODEL of `core::fmt::Formatter::pad_integral` (not verified here; it is
   validated against real `rustc` output).  Every theorem below is of the form "bnum's text =
   `padIntegral fl` applied to the triple core computes for a primitive", so it holds for whatever
   `pad_integral` does as long as both sides call the same function.
 
-  The decimal / octal forms go through `UI.toStrRadix` (C11, owned by lean-c10c11).  Its
-  correctness is taken as the explicit hypothesis `Fmt.ToStrRadixCanonical`.
+  The decimal / octal forms go through `UI.toStrRadix` (C11, owned by lean-c10c11).  In this file
+  its correctness is the explicit hypothesis `Fmt.ToStrRadixCanonical w x r`; Props/C12.lean
+  discharges it with `UI.toStrRadix_spec` (Lemmas/Radix.lean).  This file does not import
+  Lemmas/Radix.lean and proves the few facts about `Spec.Radix.digitsLE`/`canonLE` it needs itself.
 -/
 import Bnum.Model.Fmt
 import Bnum.Spec.Fmt
@@ -724,6 +734,84 @@ theorem strip_range {v : Nat} (hv : 0 < v) :
   have h2 := ilog10_spec hcpos
   have : ilog10 c = q := by omega
   rw [this] at h2; exact h2
+
+/-! ### sanity properties of the `pad_integral` model -/
+
+/-- sign, then (under `#`) the prefix -/
+def signPrefix (fl : Flags) (isNonneg : Bool) (pfx : List Nat) : List Nat :=
+  (if !isNonneg then [45] else if fl.signPlus then [43] else [])
+    ++ (if fl.alternate then pfx else [])
+
+/-- the text before padding: sign, prefix, digits -/
+def natural (fl : Flags) (isNonneg : Bool) (pfx buf : List Nat) : List Nat :=
+  signPrefix fl isNonneg pfx ++ buf
+
+theorem fillN_length (fill : List Nat) : ∀ k, (fillN fill k).length = k * fill.length
+  | 0 => by simp [fillN]
+  | k + 1 => by simp [fillN, fillN_length fill k]; ring
+
+theorem padding_length (fl : Flags) (pad : Nat) (d : Align) (hf : fl.fill.length = 1) :
+    (padding fl pad d).1.length + (padding fl pad d).2.length = pad := by
+  unfold padding
+  simp only [fillN_length, hf, Nat.mul_one]
+  cases fl.align with
+  | none => cases d <;> (simp; try omega)
+  | some a => cases a <;> (simp; try omega)
+
+/-- readable form of the model: nothing if the text already has `width` characters; under `0`
+    zeros between sign/prefix and digits (fill and alignment ignored); otherwise fill characters
+    around the text according to the alignment (default: right-aligned) -/
+theorem padIntegral_eq (fl : Flags) (isNonneg : Bool) (pfx buf : List Nat) :
+    padIntegral fl isNonneg pfx buf =
+      let nat := natural fl isNonneg pfx buf
+      if fl.width ≤ nat.length then nat
+      else if fl.zeroPad then
+        signPrefix fl isNonneg pfx ++ List.replicate (fl.width - nat.length) 48 ++ buf
+      else
+        let p := padding fl (fl.width - nat.length) .right
+        p.1 ++ nat ++ p.2 := by
+  have hw : (natural fl isNonneg pfx buf).length
+      = (if fl.alternate then
+          (if !isNonneg then buf.length + 1 else if fl.signPlus then buf.length + 1 else buf.length)
+            + pfx.length
+         else
+          (if !isNonneg then buf.length + 1 else if fl.signPlus then buf.length + 1 else buf.length)) := by
+    unfold natural signPrefix
+    cases isNonneg <;> cases fl.signPlus <;> cases fl.alternate <;> simp <;> omega
+  have hs : writePrefix (if !isNonneg then some 45 else if fl.signPlus then some 43 else none)
+      (if fl.alternate then some pfx else none) = signPrefix fl isNonneg pfx := by
+    unfold writePrefix signPrefix
+    cases isNonneg <;> cases fl.signPlus <;> cases fl.alternate <;> simp
+  unfold padIntegral
+  simp only [hs, ← hw]
+  by_cases h : fl.width ≤ (natural fl isNonneg pfx buf).length
+  · simp only [ge_iff_le, if_pos h]; rfl
+  · simp only [ge_iff_le, if_neg h]
+    cases fl.zeroPad
+    · simp [natural]
+    · simp [padding, fillN_single]
+
+theorem padIntegral_of_le (fl : Flags) (isNonneg : Bool) (pfx buf : List Nat)
+    (h : fl.width ≤ (natural fl isNonneg pfx buf).length) :
+    padIntegral fl isNonneg pfx buf = natural fl isNonneg pfx buf := by
+  rw [padIntegral_eq]; simp [h]
+
+/-- the output has at least `width` characters, exactly `width` when padding was needed
+    (for a one-byte fill character) -/
+theorem padIntegral_length (fl : Flags) (isNonneg : Bool) (pfx buf : List Nat)
+    (hf : fl.fill.length = 1) :
+    (padIntegral fl isNonneg pfx buf).length
+      = max fl.width (natural fl isNonneg pfx buf).length := by
+  rw [padIntegral_eq]
+  dsimp only
+  by_cases h : fl.width ≤ (natural fl isNonneg pfx buf).length
+  · rw [if_pos h, Nat.max_eq_right h]
+  · rw [if_neg h]
+    have hp := padding_length fl (fl.width - (natural fl isNonneg pfx buf).length) .right hf
+    cases fl.zeroPad
+    · simp only [Bool.false_eq_true, if_false, List.length_append]; omega
+    · simp only [if_true, List.length_append, List.length_replicate]
+      unfold natural at *; simp only [List.length_append] at *; omega
 
 end Fmt
 end Bnum
